@@ -573,11 +573,60 @@ class OpenLayouts(Suite):
         for k in range(4):
             out.append({"fmt": "vhdx", "has_parent": k != 3, "loc_ok": k != 2, "rel_exists": True, "abs_exists": k % 2 == 0,
                         "salt": rng.randrange(1 << 20), "nameless": True})
+        # VMDK: the parent named by parentFileNameHint next to the child, and / or in the directory the hint names next to the
+        # child's directory (a bare hint: one directory up) — the one next to the child wins
+        for hint in ("base.vmdk", "sub/base.vmdk", "C:\\vms\\sub\\base.vmdk"):
+            for rel_exists in (True, False):
+                for abs_exists in (True, False):
+                    out.append({"fmt": "vmdk", "has_parent": True, "loc_ok": True, "rel_exists": rel_exists, "abs_exists": abs_exists,
+                                "hint": hint, "salt": rng.randrange(1 << 20)})
+        out.append({"fmt": "vmdk", "has_parent": False, "loc_ok": True, "rel_exists": True, "abs_exists": True, "hint": "base.vmdk",
+                    "salt": rng.randrange(1 << 20)})
         return out
+
+    def impl_vmdk(self, case):
+        from pathlib import Path
+        from dissect.hypervisor.disk.vmdk import VMDK
+        tmp = tempfile.mkdtemp(prefix="verif_c07v_")
+        try:
+            vm = os.path.join(tmp, "vms", "vm")
+            os.makedirs(vm)
+            sub = "sub" if "sub" in case["hint"] else ""
+            up = os.path.join(tmp, "vms", sub)
+            os.makedirs(up, exist_ok=True)
+
+            def base(d, fill):
+                with open(os.path.join(d, "base-flat.bin"), "wb") as fh:
+                    fh.write(bytes([fill]) * (16 * 512))
+                with open(os.path.join(d, "base.vmdk"), "w") as fh:
+                    fh.write('# Disk DescriptorFile\nversion=1\nCID=00000002\nparentCID=ffffffff\ncreateType="monolithicFlat"\n'
+                             'RW 16 FLAT "base-flat.bin" 0\n')
+            if case["rel_exists"]:
+                base(vm, 0x52)            # 'R': next to the child
+            if case["abs_exists"]:
+                base(up, 0x41)            # 'A': where the hint's directory points
+            # the child: one hosted sparse extent of 16 sectors in which nothing is allocated
+            with open(os.path.join(vm, "child-s001.vmdk"), "wb") as fh:
+                fh.write(c02.kdmv_header(1, 16, 8, 0, 0, 512, 1, overhead=2) + bytes(512))
+            with open(os.path.join(vm, "child.vmdk"), "w") as fh:
+                fh.write("# Disk DescriptorFile\nversion=1\nCID=00000003\nparentCID=%s\n" % ("00000002" if case["has_parent"] else "ffffffff")
+                         + ('parentFileNameHint="%s"\n' % case["hint"] if case["has_parent"] else "")
+                         + 'createType="twoGbMaxExtentSparse"\nRW 16 SPARSE "child-s001.vmdk"\n')
+            try:
+                v = VMDK(Path(vm) / "child.vmdk")
+            except Exception as e:  # noqa: BLE001
+                return {"result": "err", "exc": type(e).__name__}
+            data = v.read(4096)
+            which = {0x52: "rel", 0x41: "abs", 0: "zeros"}.get(data[0] if data and data == bytes([data[0]]) * 4096 else -1, "other")
+            return {"result": "ok", "which": which, "has_parent_obj": v.parent is not None}
+        finally:
+            shutil.rmtree(tmp, ignore_errors=True)
 
     def impl(self, case):
         from pathlib import Path
         from dissect.hypervisor.disk.vhdx import VHDX
+        if case["fmt"] == "vmdk":
+            return self.impl_vmdk(case)
         tmp = tempfile.mkdtemp(prefix="verif_c07o_")
         try:
             base = {"size": MB, "block_size": MB, "sector_size": 512, "blocks": [[6, 5]], "bat_offset": 3 * MB,
@@ -641,6 +690,8 @@ class OpenLayouts(Suite):
         if case.get("nameless"):
             case = dict(case, rel_exists=False, abs_exists=False)       # nothing can be looked up without a path
         fs = f"(fun p : Z => if p =? 1 then {core.cbool(case['rel_exists'])} else {core.cbool(case['abs_exists'])})"
+        if case["fmt"] == "vmdk":
+            return f"vmdk_open_parent {fs} {core.cbool(case['has_parent'])} 1 2"
         return f"vhdx_open_parent {fs} {core.cbool(case['has_parent'])} {core.cbool(case['loc_ok'])} 1 2"
 
     def judge(self, case, impl_res, coq_val):
